@@ -34,6 +34,8 @@ MC_UniStrs_S  == {"<U+00E9><U+6771><U+1F600>"}
 MC_UniIdents  == {"t<U+00E9>", "<U+6771>1", "q <U+1F600>"}     \* the last one is written in double quotes
 MC_UniIdents_S == {"t<U+00E9>"}
 MC_VarcharLens == {1, 255}
+MC_BigInts  == {"2147483647", "2147483648", "3000000000", "4294967296", "9223372036854775807"}
+MC_BigInts_S == {"2147483648"}
 MC_LimVals  == {0, 7}
 MC_LimVals_S == {7}
 
@@ -81,13 +83,13 @@ MC_JoinTblPool   == {Tbl("t2", ""), Tbl("t2", "y")}
 CoverSelects ==
   {Sel(<<Item(Col("", "a"), ""), Item(Col("t1", "b"), "x")>>, <<Tbl("t1", "x")>>,
        <<JoinOf("INNER", Tbl("t2", "y"), L4)>>, <<OrN(AndN(L1, L2), L3)>>, <<>>,
-       <<Ord(Col("", "a"), "ASC"), Ord(Col("t1", "b"), "DESC")>>, <<7>>, <<0>>),
+       <<Ord(Col("", "a"), "ASC"), Ord(Col("t1", "b"), "DESC")>>, <<IntL(7)>>, <<IntL(0)>>),
    Sel(<<Item(Col("", "a"), ""), Item(CountOf(Star), "x"), Item(AvgOf(Col("", "b")), "")>>, <<Tbl("t1", "")>>,
        <<JoinOf("LEFT", Tbl("t2", ""), L1), JoinOf("RIGHT", Tbl("t1", "y"), AndN(L1, L2))>>, <<>>,
        <<Col("", "a")>>, <<>>, <<>>, <<>>),
    Sel(<<Item(CountOf(Col("", "a")), "")>>, <<Tbl("t1", "")>>, <<>>, <<L2>>, <<Col("", "a"), Col("t1", "b")>>,
-       <<>>, <<>>, <<7>>),
-   Sel(<<Item(Star, "")>>, <<Tbl("t1", "")>>, <<>>, <<AndN(L1, AndN(L3, L2))>>, <<>>, <<Ord(Col("x", "Cc"), "ASC")>>, <<7>>, <<>>),
+       <<>>, <<>>, <<IntL(7)>>),
+   Sel(<<Item(Star, "")>>, <<Tbl("t1", "")>>, <<>>, <<AndN(L1, AndN(L3, L2))>>, <<>>, <<Ord(Col("x", "Cc"), "ASC")>>, <<IntL(7)>>, <<>>),
    Sel(<<Item(L1, "y"), Item(IntL(7), ""), Item(StrL("p"), "")>>, <<>>, <<>>, <<>>, <<>>, <<>>, <<>>, <<>>),
    Sel(<<Item(OrN(L1, L2), "")>>, <<Tbl("t1", "")>>, <<>>, <<OrN(L1, OrN(L2, L3))>>, <<>>, <<>>, <<>>, <<>>)}
 CoverOthers ==
